@@ -39,7 +39,7 @@ MAX_ATOMS = 6000
 
 
 def budget(tier):
-    return {"examples": 1300 if tier == "quick" else 40000, "shards": 16, "wall": 150 if tier == "quick" else 3000}
+    return {"examples": 1000 if tier == "quick" else 40000, "shards": 16, "wall": 150 if tier == "quick" else 3000}
 
 
 @st.composite
